@@ -107,6 +107,8 @@ package promise
 //              section, ctx.Done() and the caller's own channel - "returns as soon as ... fires"
 //   backedge 1 the loop goes round only after the replacement channel has fired - "blocks without
 //              consuming CPU", also for a result whose error is context.Canceled
+//   select *   a blocking select of its own (one that does not wait for a result) is reached only while
+//              the container holds no promise at all - "returns as soon as a result is available"
 //   either     a return is caused by ctx, by the caller's channel, or is the result of the promise that
 //              was current at the latest sampling
 //
@@ -158,6 +160,7 @@ package promise
 //@   assert select 1: selects(waitCh) && selects(done(ctx)) && waitCh != nil && issuedBy(waitCh) == p.bcast && gettime(waitCh) == lastcs()
 //@   assert invoke 1: selects(waitCh) && selects(done(ctx)) && waitCh != nil && issuedBy(waitCh) == p.bcast && gettime(waitCh) == lastcs() && curat(prom) == lastcs()
 //@   assert backedge 1: closed(waitCh)
+//@   assert select *: noresult: prom == nil
 //@   ensures either: (result1 == context.Canceled && cancelled(ctx)) || (exists q: ref :: q != nil && curat(q) == lastcs() && resolved(q) && result0 == resval(q) && result1 == reserr(q))
 //
 //@ closure (*PromiseContainer).Await$1
@@ -172,6 +175,7 @@ package promise
 //@   assert invoke 1: selects(waitCh) && selects(done(ctx)) && waitCh != nil && issuedBy(waitCh) == p.bcast && gettime(waitCh) == lastcs() && curat(prom) == lastcs()
 //@   assert invoke 1: errch: errCh != nil ==> selects(errCh)
 //@   assert backedge 1: closed(waitCh)
+//@   assert select *: noresult: prom == nil
 //@   loop 1 invariant counts: recvs(errCh) >= old(recvs(errCh))
 //@   ensures either: (result1 == context.Canceled && cancelled(ctx)) || recvs(errCh) > old(recvs(errCh)) || (exists q: ref :: q != nil && curat(q) == lastcs() && resolved(q) && result0 == resval(q) && result1 == reserr(q))
 //
@@ -187,6 +191,7 @@ package promise
 //@   assert invoke 1: selects(waitCh) && selects(done(ctx)) && waitCh != nil && issuedBy(waitCh) == p.bcast && gettime(waitCh) == lastcs() && curat(prom) == lastcs()
 //@   assert invoke 1: cancelch: cancelCh != nil ==> selects(cancelCh)
 //@   assert backedge 1: closed(waitCh)
+//@   assert select *: noresult: prom == nil
 //@   ensures either: (result1 == context.Canceled && cancelled(ctx)) || closed(cancelCh) || (exists q: ref :: q != nil && curat(q) == lastcs() && resolved(q) && result0 == resval(q) && result1 == reserr(q))
 //
 //@ closure (*PromiseContainer).AwaitWithCancelCh$1
